@@ -672,9 +672,19 @@ def part_d(res, fa, first, seen, tmpdir):
                         if os.path.exists(p):
                             os.remove(p)
                         os.mkfifo(p)
-                        t = threading.Thread(target=lambda: open(p, "wb").write(content))
+                        t = threading.Thread(target=lambda: open(p, "wb").write(content), daemon=True)
                         t.start()
-                        got = fa.is_avro(p)
+                        try:
+                            got = fa.is_avro(p)
+                        finally:
+                            if t.is_alive():
+                                # nobody opened the pipe for reading: release the writer so that it does not linger
+                                try:
+                                    fd = os.open(p, os.O_RDONLY | os.O_NONBLOCK)
+                                    t.join(2)
+                                    os.close(fd)
+                                except OSError:
+                                    pass
                         t.join(5)
                     elif kind == "symlink":
                         real = os.path.join(tmpdir, "real.bin")
